@@ -279,6 +279,34 @@ PROPS["C02"] = {
                   for k in ("unary", "disconnect1", "word")],
 }
 
+
+# ---------------------------------------------------------------- Bit Machine frame kernels (C05, kernel level)
+def mac_rules():
+    return [BITITER_NEXT_REC, (r"^c05k::", "*", 42)]
+
+
+PROPS["C05"] = {
+    "filters": ["k05_"],
+    "functions": ["bit_machine::frame::Frame::{new, peek_bit, read_bit, write_bit, write_u8, move_cursor_forward, move_cursor_backward, copy_from, reset_cursor, as_bit_iter_from_cursor, bit_width, start}",
+                  "BitMachine::{new_write_frame, move_write_frame_to_read, drop_read_frame, write_bit, write_u8, write_bytes, skip, copy, fwd, back, read_bit, active_read_bit_width, active_write_bit_width} (private, via verif-hooks Mac)",
+                  "BitIter::byte_slice_window + next (frame iterators)"],
+    "bounds": "a machine over 5 symbolic bytes of memory (stale bits everywhere), a leading frame of 0..9 bits so that every frame under test starts at every bit alignment; write frames of up to 20 bits with 4 write operations of symbolic kind (write_bit/skip/write_u8) then 3 read operations of symbolic kind (read_bit+peek/fwd/back); copy of 0..17 bits (thorough: 0..33) between frames at symbolic cursors; frame iterators over frames of 1..22 bits from every cursor; the instruction sequences the interpreter issues for comp (widths 1..10), pair of take/drop (halves 0..7), disconnect (2-byte stand-in for the CMR, widths up to 6), case under drop (summand widths 0..5, 0..4 dropped bits), injl/injr + write_bytes (padding 0..6, 2 bytes)",
+    "outside": "BitMachine::exec_with_tracker itself (explicit call stack over Arc<Node>/Vec: not executable under CBMC in reach, DESIGN.md 1.4) - so which sequence of micro-operations a combinator issues is NOT checked against the semantics, only that each micro-operation and each replayed sequence moves exactly the right bits; jets and exec_jet (FFI); write_value/from_padded_bits (Value machinery, C10); frames longer than 22 bits, memories above 5 bytes",
+    "assumptions": ["the machine is built over caller-supplied memory through the verif-hooks (Mac::new), with frame stacks of capacity 6; operations stay inside their frame (what well-typedness + C07's bounds give the interpreter)"],
+    "harnesses": [
+        H("k05_write_then_read", timeout=1500, mem_gb=16, unwindset=mac_rules()),
+        H("k05_copy_9", timeout=1500, mem_gb=16, unwindset=mac_rules()),
+        H("k05_copy", timeout=1500, mem_gb=16, unwindset=mac_rules()),
+        H("k05_copy_wide", tiers=("thorough",), timeout=3600, mem_gb=24, unwindset=[BITITER_NEXT_REC, (r"^c05k::", "*", 82)]),
+        H("k05_seq_pair_take_drop", timeout=1500, mem_gb=16, unwindset=mac_rules()),
+        H("k05_seq_disconnect", timeout=1500, mem_gb=16, unwindset=[BITITER_NEXT_REC, (r"^c05k::", "*", 66)]),
+        H("k05_frame_iter", timeout=1500, mem_gb=16, unwindset=mac_rules()),
+        H("k05_seq_comp", timeout=1500, mem_gb=16, unwindset=mac_rules()),
+        H("k05_seq_case", timeout=1500, mem_gb=16, unwindset=mac_rules()),
+        H("k05_seq_inj_bytes", timeout=1500, mem_gb=16, unwindset=mac_rules()),
+    ],
+}
+
 PROPS["C07"] = {
     "engine": "mir",
     "assumptions": [
